@@ -8,7 +8,6 @@ import (
 	"context"
 	"fmt"
 	"math/big"
-	"regexp"
 	"runtime"
 	"strconv"
 	"strings"
@@ -34,7 +33,9 @@ func (prop) Rule() string {
 	return "cases: 2-3 peers registered; 8-40 ops: start <thread> <peer> r|t <amount> launches PutRetrieveTraffic/PutTransferTraffic in a goroutine and " +
 		"reports whether it reached the state-store Put (value it is about to persist), blocks on the peer lock, or returned; release <thread> lets a parked " +
 		"Put through (in any order the generator picks: FIFO, LIFO, random; the second starter of a peer is released first in 1/3 of the cases); " +
-		"restart aborts in-flight writes and rebuilds the service on the same store (+Init); get/pay/lastsent observe memory, store and cheques. " +
+		"restart aborts in-flight writes and rebuilds the service on the same store (+Init); get/pay/lastsent observe memory, store and cheques; " +
+		"refresh <peer> r|t <amount> (quiescent node only) runs TrafficInit with its read of that peer's persisted total parked after the read, starts a " +
+		"PutRetrieveTraffic/PutTransferTraffic meanwhile, then lets the refresh go on (the update either waits for the peer lock or slips in between). " +
 		"Fixed regression cases fix-stale-persist* (T1 reads 5, T2 updates to 8 and persists, T1 persists last) first. " +
 		"Non-trivial: >=2 updates of one peer overlapping in time and a restart or a quiescent observation afterwards."
 }
@@ -48,6 +49,8 @@ func (prop) Gen(r *core.Rand, tier string) []core.Case {
 		{ID: "fix-stale-persist", NT: true, Ops: []string{"reg 0 1", "start 0 0 r 5", "start 1 0 r 3", "release 1", "release 0", "release 1", "get 0", "restart", "get 0"}},
 		{ID: "fix-stale-persist-transfer", NT: true, Ops: []string{"reg 0 1", "start 0 0 t 5", "start 1 0 t 3", "release 1", "release 0", "release 1", "get 0", "restart", "get 0"}},
 		{ID: "fix-stale-persist-then-pay", NT: true, Ops: []string{"reg 0 1", "start 0 0 r 5", "start 1 0 r 3", "release 1", "release 0", "release 1", "pay 0", "restart", "get 0", "start 2 0 r 4", "release 2", "pay 0", "lastsent 0"}},
+		{ID: "fix-refresh-overlaps-update", NT: true, Ops: []string{"reg 0 1", "start 0 0 t 100", "release 0", "refresh 0 t 5", "get 0", "start 1 0 t 1", "release 1", "get 0", "restart", "get 0"}},
+		{ID: "fix-refresh-overlaps-update-retrieve", NT: true, Ops: []string{"reg 0 1", "start 0 0 r 100", "release 0", "pay 0", "refresh 0 r 5", "get 0", "start 1 0 r 1", "release 1", "get 0", "pay 0", "restart", "get 0", "lastsent 0"}},
 		{ID: "fix-crash-midway", NT: true, Ops: []string{"reg 0 1", "start 0 0 r 5", "release 0", "start 1 0 r 3", "restart", "get 0", "start 2 0 r 1", "release 2", "get 0"}},
 	}
 	for i := 0; i < n; i++ {
@@ -98,6 +101,18 @@ func (prop) Gen(r *core.Rand, tier string) []core.Case {
 				if overlap {
 					after = true
 				}
+			case x == 10 && r.Chance(50):
+				// a refresh needs a quiescent node: drain first
+				for _, t := range live {
+					c.Ops = append(c.Ops, fmt.Sprintf("release %d", t), fmt.Sprintf("release %d", t))
+				}
+				live = nil
+				d := "r"
+				if r.Chance(50) {
+					d = "t"
+				}
+				pp := r.Intn(np)
+				c.Ops = append(c.Ops, fmt.Sprintf("refresh %d %s %d", pp, d, r.Range(1, 30)), "get "+strconv.Itoa(pp))
 			case x == 10:
 				c.Ops = append(c.Ops, "pay "+strconv.Itoa(r.Intn(np)))
 			case x == 11:
@@ -172,37 +187,10 @@ func gid() string {
 	return "?"
 }
 
-var reFrame = regexp.MustCompile(`(?m)^(\S+)\(`)
-
 // lockWait reports whether goroutine g is waiting in sync.Mutex.Lock called directly from
 // PutRetrieveTraffic / PutTransferTraffic (i.e. on the per-peer Traffic lock).
 func lockWait(g string) bool {
-	buf := make([]byte, 1<<20)
-	for {
-		n := runtime.Stack(buf, true)
-		if n < len(buf) {
-			buf = buf[:n]
-			break
-		}
-		buf = make([]byte, 2*len(buf))
-	}
-	s := string(buf)
-	i := strings.Index(s, "goroutine "+g+" [")
-	if i < 0 {
-		return false
-	}
-	s = s[i:]
-	if j := strings.Index(s, "\n\n"); j >= 0 {
-		s = s[:j]
-	}
-	frames := reFrame.FindAllStringSubmatch(s, -1)
-	for k, f := range frames {
-		if strings.HasSuffix(f[1], "sync.(*Mutex).Lock") && k+1 < len(frames) {
-			c := frames[k+1][1]
-			return strings.HasSuffix(c, ".PutRetrieveTraffic") || strings.HasSuffix(c, ".PutTransferTraffic")
-		}
-	}
-	return false
+	return settle.LockWait(g, ".PutRetrieveTraffic", ".PutTransferTraffic")
 }
 
 // settle waits until thread t is parked in Put, blocked on the peer lock, or has returned.
@@ -339,6 +327,158 @@ func (rn *runner) quiescentCheck(ctx *core.Ctx) {
 	}
 }
 
+// refresh runs TrafficInit (the 24h refresh / TrafficInit API call) on a quiescent node with the
+// read of peer p's persisted total (direction dir) parked AFTER the read was done, launches an update
+// of that total meanwhile, and only then lets the refresh continue.  If the refresh reads the total
+// under the peer lock the update waits (upd=blocked) and is applied afterwards; if it reads before
+// taking the lock the update slips in (upd=done) and the refresh goes on with a stale total.
+func (rn *runner) refresh(ctx *core.Ctx, p, a int, dir string, amt int64) string {
+	memR0, memT0, _, _, ok := rn.totals(p)
+	if !ok {
+		return "err"
+	}
+	gate := rn.env.Gate
+	key := fmt.Sprintf("retrieved_traffic__%x", settle.Addr(a))
+	if dir == "t" {
+		key = fmt.Sprintf("transferred_traffic__%x", settle.Addr(a))
+	}
+	gate.GateReads(key)
+	svc := rn.env.Svc
+	rdone := make(chan error, 1)
+	go func() { rdone <- svc.TrafficInit() }()
+	var rd *settle.Parked
+	refreshed := false
+	deadline := time.Now().Add(20 * time.Second)
+	for i := 0; rd == nil && !refreshed; i++ {
+		select {
+		case <-rdone:
+			refreshed = true
+			continue
+		default:
+		}
+		for _, pk := range gate.ParkedList() {
+			if pk.Read && pk.Key == key {
+				rd = pk
+			}
+		}
+		if time.Now().After(deadline) {
+			gate.GateReads()
+			return "stuck"
+		}
+		if i < 50 {
+			runtime.Gosched()
+		} else {
+			time.Sleep(100 * time.Microsecond)
+		}
+	}
+	// the update
+	t := &thread{id: -1, peer: p, dir: dir, amt: amt, done: make(chan error, 1)}
+	ready := make(chan struct{})
+	go func() {
+		t.gid = gid()
+		close(ready)
+		var err error
+		if dir == "r" {
+			err = svc.PutRetrieveTraffic(settle.Peer(p), big.NewInt(amt))
+		} else {
+			err = svc.PutTransferTraffic(settle.Peer(p), big.NewInt(amt))
+		}
+		t.done <- err
+	}()
+	<-ready
+	mode := "seq"
+	finish := func() bool { // the update is parked in its own Put: let it through and wait for its return
+		if t.state != "parked" {
+			return false
+		}
+		gate.Release(t.parked, nil)
+		return <-t.done == nil
+	}
+	okUpd := false
+	if rd == nil {
+		rn.settleThread(t, false)
+		okUpd = finish()
+	} else {
+		// blocked on the peer lock (held by the refresh), or past it and parked in its Put
+		blockedSeen := 0
+		for i := 0; ; i++ {
+			for _, pk := range gate.ParkedList() {
+				if !pk.Read && pk.Tag == t.gid {
+					t.parked, t.state = pk, "parked"
+				}
+			}
+			if t.state == "parked" {
+				mode = "done"
+				break
+			}
+			if i > 20 && i%10 == 0 {
+				if lockWait(t.gid) {
+					blockedSeen++
+					if blockedSeen >= 2 {
+						mode = "blocked"
+						break
+					}
+				} else {
+					blockedSeen = 0
+				}
+			}
+			if time.Now().After(deadline) {
+				mode = "stuck"
+				break
+			}
+			if i < 50 {
+				runtime.Gosched()
+			} else {
+				time.Sleep(100 * time.Microsecond)
+			}
+		}
+		if mode == "done" {
+			okUpd = finish()
+		}
+		gate.GateReads()
+		gate.Release(rd, nil)
+		<-rdone
+		if mode == "blocked" {
+			rn.settleThread(t, false)
+			okUpd = finish()
+		}
+	}
+	gate.GateReads()
+	if mode == "stuck" {
+		gate.AbortAll()
+		return "stuck"
+	}
+	if !okUpd {
+		return "err"
+	}
+	// ---- oracle: the update returned nil, so its total is acknowledged
+	ack := new(big.Int).Add(memR0, big.NewInt(amt))
+	cm, upd, what := rn.completedR, rn.updatedR, "retrieve"
+	if dir == "t" {
+		ack = new(big.Int).Add(memT0, big.NewInt(amt))
+		cm, upd, what = rn.completedT, rn.updatedT, "transfer"
+	}
+	if ack.Cmp(get(cm, a)) > 0 {
+		cm[a] = ack
+	}
+	upd[a] = true
+	memR, memT, stR, stT, ok := rn.totals(p)
+	if !ok {
+		return "err"
+	}
+	mem, st := memR, stR
+	if dir == "t" {
+		mem, st = memT, stT
+	}
+	if mem.Cmp(ack) < 0 {
+		ctx.Fail("refresh-forgets-"+what, "peer %d: %s total in memory is %s after a refresh that overlapped an update, %s was acknowledged", p, what, mem, ack)
+	}
+	if st.Cmp(ack) < 0 {
+		ctx.Fail("refresh-unpersists-"+what, "peer %d: persisted %s total is %s after a refresh that overlapped an update, %s was acknowledged", p, what, st, ack)
+	}
+	return fmt.Sprintf("ok upd=%s mem=%s/%s st=%s/%s", mode, memR, memT, stR, stT)
+}
+
 func (rn *runner) Step(ctx *core.Ctx, op []string) string {
 	atoi := func(s string) (int, bool) {
 		v, err := strconv.Atoi(s)
@@ -442,6 +582,20 @@ func (rn *runner) do(ctx *core.Ctx, op []string, atoi func(string) (int, bool)) 
 			}
 		}
 		return "ok"
+	case len(op) == 4 && op[0] == "refresh":
+		p, ok1 := atoi(op[1])
+		amt, ok2 := atoi(op[3])
+		if !ok1 || !ok2 || p >= nPeers || (op[2] != "r" && op[2] != "t") {
+			return "bad-op"
+		}
+		if len(rn.threads) != 0 {
+			return "busy"
+		}
+		a, known := rn.reg[p]
+		if !known {
+			return "nocheque"
+		}
+		return rn.refresh(ctx, p, a, op[2], int64(amt))
 	case len(op) == 1 && op[0] == "restart":
 		quiescent := len(rn.threads) == 0
 		type tot struct{ r, t *big.Int }
